@@ -192,26 +192,11 @@ fn parse_mismatch(msg: &str) -> (String, String) {
     }
 }
 
-fn run_c27(tier: &str, seed: u64) -> i32 {
+/// One shuttle batch, run in a child process so that a hang (e.g. a lock held across user
+/// code, a re-entrant deadlock) can be cut off by the supervisor.  Prints one JSON line.
+fn c27_batch(which: &str, bseed: u64, iters: usize, seed: u64, sdir: &str) -> i32 {
     use shuttle::scheduler::{PctScheduler, RandomScheduler};
-    let t0 = Instant::now();
-    let thorough = tier == "thorough";
     let shared = std::sync::Arc::new(c27::prepare(seed));
-    let dir = simcore::replay_dir();
-    if let Ok(rd) = std::fs::read_dir(&dir) {
-        for f in rd.flatten() {
-            if f.file_name().to_string_lossy().starts_with("C27-") {
-                let _ = std::fs::remove_file(f.path());
-            }
-        }
-    }
-    let iters_random = if thorough { 6_000_000 } else { 160_000 };
-    let iters_pct = if thorough { 2_400_000 } else { 64_000 };
-    let findings = Findings::load();
-    let mut unlisted = 0u64;
-    let mut known = 0u64;
-    let mut keys_seen = std::collections::BTreeSet::new();
-    // silence the default panic printer inside shuttle runs; we report ourselves
     let last_panic: std::sync::Arc<std::sync::Mutex<String>> = Default::default();
     {
         let lp = last_panic.clone();
@@ -223,82 +208,270 @@ fn run_c27(tier: &str, seed: u64) -> i32 {
             }
         }));
     }
-    for (which, iters) in [("random", iters_random), ("pct", iters_pct)] {
-        // several batches with different seeds so that one failure does not end the exploration
-        let batches = if thorough { 8 } else { 2 };
-        for b in 0..batches {
-            let sdir = dir.join(format!("C27-{seed}-{which}-{b}"));
-            let _ = std::fs::create_dir_all(&sdir);
-            let mut cfg = shuttle::Config::new();
-            cfg.failure_persistence = shuttle::FailurePersistence::File(Some(sdir.clone()));
-            cfg.max_steps = shuttle::MaxSteps::FailAfter(2_000_000);
-            let sh = shared.clone();
-            let bseed = seed.wrapping_mul(1_000_003).wrapping_add(b as u64 * 7919 + if which == "pct" { 13 } else { 0 });
-            last_panic.lock().unwrap().clear();
-            let res = std::panic::catch_unwind(std::panic::AssertUnwindSafe(|| {
-                if which == "random" {
-                    shuttle::Runner::new(RandomScheduler::new_from_seed(bseed, iters / batches), cfg).run(move || c27::scenario(&sh));
-                } else {
-                    shuttle::Runner::new(PctScheduler::new_from_seed(bseed, 3, iters / batches), cfg).run(move || c27::scenario(&sh));
+    let _ = std::fs::create_dir_all(sdir);
+    let mut cfg = shuttle::Config::new();
+    cfg.failure_persistence = shuttle::FailurePersistence::File(Some(std::path::PathBuf::from(sdir)));
+    cfg.max_steps = shuttle::MaxSteps::FailAfter(2_000_000);
+    let sh = shared.clone();
+    let res = std::panic::catch_unwind(std::panic::AssertUnwindSafe(|| {
+        if which == "random" {
+            shuttle::Runner::new(RandomScheduler::new_from_seed(bseed, iters), cfg).run(move || c27::scenario(&sh));
+        } else {
+            shuttle::Runner::new(PctScheduler::new_from_seed(bseed, 3, iters), cfg).run(move || c27::scenario(&sh));
+        }
+    }));
+    let _ = std::panic::take_hook();
+    let mut out = json!({
+        "execs": *shared.executions.lock().unwrap(),
+        "distinct": shared.schedules.lock().unwrap().len(),
+        "parses": *shared.parses.lock().unwrap(),
+        "switches": *shared.switches.lock().unwrap(),
+        "targets": shared.targets.len(),
+        "builtin_targets": shared.targets.iter().filter(|t| t.builtin).count(),
+        "reentrant_cases": shared.targets.iter().map(|t| t.cases.iter().filter(|c| c.reenter_at.is_some()).count()).sum::<usize>(),
+        "failed": false,
+    });
+    if res.is_err() {
+        let msg = last_panic.lock().unwrap().clone();
+        let (key, detail) = parse_mismatch(&msg);
+        let sched = std::fs::read_dir(sdir).ok().and_then(|rd| rd.flatten().map(|e| e.path()).next());
+        out["failed"] = json!(true);
+        out["key"] = json!(key);
+        out["detail"] = json!(detail);
+        out["replay"] = json!(sched.map(|p| p.display().to_string()).unwrap_or_else(|| sdir.to_string()));
+    } else {
+        let _ = std::fs::remove_dir(sdir);
+    }
+    println!("C27-BATCH-RESULT {out}");
+    0
+}
+
+/// Real std threads, no shuttle: used to tell a genuine deadlock from a lock that is merely
+/// held across a scheduling point (which shuttle cannot schedule around).
+fn c27_probe(kind: &str, seed: u64) -> i32 {
+    use rt::{Ctx, Plan};
+    let shared = std::sync::Arc::new(c27::prepare(seed));
+    for (ti, t) in shared.targets.iter().enumerate() {
+        if kind == "reentrant" {
+            for c in t.cases.iter().filter(|c| c.reenter_at.is_some()) {
+                let mut ctx = Ctx::new(Plan { reenter_at: c.reenter_at, ..Default::default() });
+                let sh = shared.clone();
+                ctx.reenter = Some(Box::new(move || {
+                    let t = &sh.targets[ti];
+                    let inner = Ctx::new(Plan::default());
+                    let out = c27::parse_on(t, &sh.specs, t.shared.as_ref(), &inner, &t.nested_toks, 0);
+                    format!("{:?}", Ok::<rt::Outcome, String>(out))
+                }));
+                println!("probe reentrant {} ...", t.name);
+                let out = c27::parse_on(t, &shared.specs, t.shared.as_ref(), &ctx, &c.toks, c.shape);
+                if out != c.out || *ctx.log.borrow() != c.log {
+                    println!("C27-PROBE-MISMATCH reentrant {}", t.name);
+                    return 1;
                 }
-            }));
-            if res.is_err() {
-                let msg = last_panic.lock().unwrap().clone();
-                let (key, detail) = parse_mismatch(&msg);
-                let sched = std::fs::read_dir(&sdir).ok().and_then(|rd| rd.flatten().map(|e| e.path()).next());
-                let path = sched.map(|p| p.display().to_string()).unwrap_or_else(|| sdir.display().to_string());
-                if keys_seen.insert(key.clone()) {
-                    if let Some(f) = findings.known("C27", &key) {
-                        known += 1;
-                        println!("KNOWN-FINDING: property=C27 {} [key: {key}] replay={path}", f.what);
-                    } else {
-                        unlisted += 1;
-                        println!("VIOLATION property=C27 replay={path}");
-                        println!("  key={key}
-  scheduler={which} seed={bseed}
-  {detail}");
+            }
+        } else {
+            println!("probe concurrent {} ...", t.name);
+            let mut hs = Vec::new();
+            for th in 0..4usize {
+                let sh = shared.clone();
+                hs.push(std::thread::spawn(move || {
+                    let t = &sh.targets[ti];
+                    for round in 0..6 {
+                        let c = &t.cases[(th * 5 + round) % t.cases.len()];
+                        if c.reenter_at.is_some() {
+                            continue;
+                        }
+                        let mut ctx = Ctx::new(Plan::default());
+                        ctx.yield_hook = Some(Box::new(std::thread::yield_now));
+                        let out = c27::parse_on(t, &sh.specs, t.shared.as_ref(), &ctx, &c.toks, c.shape);
+                        if out != c.out || *ctx.log.borrow() != c.log {
+                            return false;
+                        }
                     }
+                    true
+                }));
+            }
+            for h in hs {
+                if !h.join().unwrap_or(false) {
+                    println!("C27-PROBE-MISMATCH concurrent {}", t.name);
+                    return 1;
                 }
-            } else {
-                let _ = std::fs::remove_dir(&sdir);
             }
         }
     }
-    let _ = std::panic::take_hook();
+    println!("probe {kind} ok");
+    0
+}
+
+/// run a child of ourselves with a wall-clock cap; None = timed out (killed)
+fn child(args: &[String], cap_s: u64) -> Option<(i32, String)> {
+    use std::io::Read;
+    let exe = std::env::current_exe().expect("current_exe");
+    let mut c = std::process::Command::new(exe).args(args).stdout(std::process::Stdio::piped()).stderr(std::process::Stdio::null()).spawn().expect("spawn child");
+    let mut so = c.stdout.take().unwrap();
+    let reader = std::thread::spawn(move || {
+        let mut s = String::new();
+        let _ = so.read_to_string(&mut s);
+        s
+    });
+    let t0 = Instant::now();
+    loop {
+        match c.try_wait() {
+            Ok(Some(st)) => return Some((st.code().unwrap_or(-1), reader.join().unwrap_or_default())),
+            Ok(None) => {
+                if t0.elapsed().as_secs() > cap_s {
+                    let _ = c.kill();
+                    let _ = c.wait();
+                    return None;
+                }
+                std::thread::sleep(std::time::Duration::from_millis(20));
+            }
+            Err(_) => return None,
+        }
+    }
+}
+
+fn run_c27(tier: &str, seed: u64) -> i32 {
+    let t0 = Instant::now();
+    let thorough = tier == "thorough";
+    let dir = simcore::replay_dir();
+    if let Ok(rd) = std::fs::read_dir(&dir) {
+        for f in rd.flatten() {
+            let n = f.file_name().to_string_lossy().into_owned();
+            if n.starts_with("C27-") && n != "C27-miri.log" {
+                if f.path().is_dir() {
+                    let _ = std::fs::remove_dir_all(f.path());
+                } else {
+                    let _ = std::fs::remove_file(f.path());
+                }
+            }
+        }
+    }
+    let iters_random: usize = if thorough { 6_000_000 } else { 160_000 };
+    let iters_pct: usize = if thorough { 2_400_000 } else { 64_000 };
+    let batches: usize = if thorough { 16 } else { 4 };
+    let findings = Findings::load();
+    let mut unlisted = 0u64;
+    let mut known = 0u64;
+    let mut keys_seen = std::collections::BTreeSet::new();
+    let mut jobs: Vec<(String, u64, usize, String)> = Vec::new();
+    for (which, iters) in [("random", iters_random), ("pct", iters_pct)] {
+        for b in 0..batches {
+            let bseed = seed.wrapping_mul(1_000_003).wrapping_add(b as u64 * 7919 + if which == "pct" { 13 } else { 0 });
+            jobs.push((which.to_string(), bseed, iters / batches, dir.join(format!("C27-{seed}-{which}-{b}")).display().to_string()));
+        }
+    }
+    // a hang is cut off after a cap that is >= 60x the normal duration of a batch
+    let cap = if thorough { 3600 } else { 600 };
+    let results: std::sync::Mutex<Vec<(usize, Option<(i32, String)>)>> = Default::default();
+    let next = std::sync::atomic::AtomicUsize::new(0);
+    std::thread::scope(|sc| {
+        for _ in 0..workers().min(jobs.len()) {
+            sc.spawn(|| loop {
+                let i = next.fetch_add(1, std::sync::atomic::Ordering::SeqCst);
+                if i >= jobs.len() {
+                    break;
+                }
+                let j = &jobs[i];
+                let r = child(&["c27-batch".into(), j.0.clone(), j.1.to_string(), j.2.to_string(), seed.to_string(), j.3.clone()], cap);
+                results.lock().unwrap().push((i, r));
+            });
+        }
+    });
+    let mut execs = 0u64;
+    let mut distinct = 0u64;
+    let mut parses = 0u64;
+    let mut switches = 0u64;
+    let mut targets = 0u64;
+    let mut builtin_targets = 0u64;
+    let mut reentrant_cases = 0u64;
+    let mut hung = Vec::new();
+    let mut report = |key: String, detail: String, path: String, unlisted: &mut u64, known: &mut u64| {
+        if keys_seen.insert(key.clone()) {
+            if let Some(f) = findings.known("C27", &key) {
+                *known += 1;
+                println!("KNOWN-FINDING: property=C27 {} [key: {key}] replay={path}", f.what);
+            } else {
+                *unlisted += 1;
+                println!("VIOLATION property=C27 replay={path}");
+                println!("  key={key}\n  {detail}");
+            }
+        }
+    };
+    let mut res = results.into_inner().unwrap();
+    res.sort_by_key(|r| r.0);
+    for (i, r) in res {
+        match r {
+            None => hung.push(i),
+            Some((_code, out)) => {
+                let line = out.lines().find_map(|l| l.strip_prefix("C27-BATCH-RESULT "));
+                let v: Value = match line.and_then(|l| serde_json::from_str(l).ok()) {
+                    Some(v) => v,
+                    None => simcore::harness_error(&format!("C27 batch {i} produced no result: {}", out.lines().last().unwrap_or(""))),
+                };
+                execs += v["execs"].as_u64().unwrap_or(0);
+                distinct += v["distinct"].as_u64().unwrap_or(0);
+                parses += v["parses"].as_u64().unwrap_or(0);
+                switches += v["switches"].as_u64().unwrap_or(0);
+                targets = v["targets"].as_u64().unwrap_or(0);
+                builtin_targets = v["builtin_targets"].as_u64().unwrap_or(0);
+                reentrant_cases = v["reentrant_cases"].as_u64().unwrap_or(0);
+                if v["failed"].as_bool() == Some(true) {
+                    report(v["key"].as_str().unwrap_or("?").to_string(), format!("scheduler={} seed={}\n  {}", jobs[i].0, jobs[i].1, v["detail"].as_str().unwrap_or("")), v["replay"].as_str().unwrap_or("").to_string(), &mut unlisted, &mut known);
+                }
+            }
+        }
+    }
+    let mut shuttle_blocked = false;
+    if !hung.is_empty() {
+        // a batch did not finish: genuine deadlock, or a lock held across a scheduling point (which
+        // shuttle, modelling only its own primitives, cannot schedule around)?  Ask real threads.
+        for kind in ["reentrant", "concurrent"] {
+            let r = child(&["c27-probe".into(), kind.into(), seed.to_string()], 120);
+            let path = dir.join(format!("C27-{seed}-hang-{kind}.json"));
+            match r {
+                None => {
+                    simcore::write_json(&path, &json!({"property": "C27", "key": format!("no-hang|{kind}-parse-deadlocks"), "probe": kind, "seed": seed, "replay_cmd": format!("./check C27 replay {}", path.display())}));
+                    report(format!("no-hang|{kind}-parse-deadlocks"), format!("real std threads: the {kind} probe did not finish within 120 s (a lock is held while user code runs?)"), path.display().to_string(), &mut unlisted, &mut known);
+                }
+                Some((code, out)) if code != 0 => {
+                    simcore::write_json(&path, &json!({"property": "C27", "key": format!("equals-fresh-sequential|real-threads-{kind}"), "probe": kind, "seed": seed}));
+                    report(format!("equals-fresh-sequential|real-threads-{kind}"), out.lines().last().unwrap_or("").to_string(), path.display().to_string(), &mut unlisted, &mut known);
+                }
+                Some(_) => {}
+            }
+        }
+        if unlisted == 0 && known == 0 {
+            shuttle_blocked = true;
+            println!("NOTE C27: {} shuttle batch(es) blocked in a non-shuttle lock held across a scheduling point; real-thread probes (re-entrant and concurrent) finished with correct results, so no violation is reported; schedule exploration was not possible for those batches", hung.len());
+        }
+    }
     let wall = t0.elapsed().as_secs_f64();
-    let execs = *shared.executions.lock().unwrap();
-    let distinct = shared.schedules.lock().unwrap().len() as u64;
     let mut extra = BTreeMap::new();
-    extra.insert("shared_parsers".to_string(), json!(shared.targets.len()));
-    extra.insert("builtin_lexer_parsers".to_string(), json!(shared.targets.iter().filter(|t| t.builtin).count()));
-    extra.insert("schedulers".to_string(), json!({"random_iterations": iters_random, "pct_depth3_iterations": iters_pct}));
-    extra.insert("concurrent_parses_checked".to_string(), json!(*shared.parses.lock().unwrap()));
-    extra.insert("context_switches_observed".to_string(), json!(*shared.switches.lock().unwrap()));
-    extra.insert("reentrant_cases".to_string(), json!(shared.targets.iter().map(|t| t.cases.iter().filter(|c| c.reenter_at.is_some()).count()).sum::<usize>()));
-    extra.insert("fault_kinds_fired".to_string(), json!({"preemption_at_token_pull_or_action": *shared.switches.lock().unwrap(), "reentrant_parse_from_action": "every fifth case"}));
+    extra.insert("shared_parsers".to_string(), json!(targets));
+    extra.insert("builtin_lexer_parsers".to_string(), json!(builtin_targets));
+    extra.insert("schedulers".to_string(), json!({"random_iterations": iters_random, "pct_depth3_iterations": iters_pct, "batches_each": batches}));
+    extra.insert("concurrent_parses_checked".to_string(), json!(parses));
+    extra.insert("context_switches_observed".to_string(), json!(switches));
+    extra.insert("reentrant_cases".to_string(), json!(reentrant_cases));
+    extra.insert("batches_cut_off_by_watchdog".to_string(), json!(hung.len()));
+    extra.insert("shuttle_blocked_by_foreign_lock".to_string(), json!(shuttle_blocked));
+    extra.insert("fault_kinds_fired".to_string(), json!({"preemption_at_token_pull_or_action": switches, "reentrant_parse_from_action": "every fifth case"}));
     extra.insert("runs_per_hour".to_string(), json!((execs as f64 / wall * 3600.0) as u64));
     extra.insert("simulated_time".to_string(), json!("none"));
     extra.insert("real_components".to_string(), json!(["generated parsers", "lalrpop-util state machine and lexer", "regex-automata lazy DFA"]));
     extra.insert("stubbed_components".to_string(), json!(["thread scheduler (shuttle: seeded random and PCT depth 3)", "token source and action bodies (scheduling points)"]));
     extra.insert("compile_time_assertions".to_string(), json!("assert_send_sync::<Parser>() for every corpus parser (corpus.rs)"));
-    extra.insert("known_findings_reported".to_string(), json!(known));
     // the check script runs Miri first (thorough tier) and tells us how it went
     let miri_status = std::env::var("VERIF_MIRI_STATUS").unwrap_or_else(|_| "not-run (quick tier)".into());
     let miri_seeds = std::env::var("VERIF_MIRI_SEEDS").unwrap_or_default();
     extra.insert("miri".to_string(), json!({"status": miri_status, "seeds": miri_seeds, "flags": "-Zmiri-many-seeds -Zmiri-preemption-rate=0.1", "scenario": "3 std threads x 2 parses on one shared built-in-lexer parser, two grammars"}));
     if miri_status == "fail" {
         let log = std::env::var("VERIF_MIRI_LOG").unwrap_or_default();
-        let key = "miri-clean|data-race-or-ub-or-mismatch".to_string();
-        if let Some(f) = findings.known("C27", &key) {
-            known += 1;
-            println!("KNOWN-FINDING: property=C27 {} [key: {key}] replay={log}", f.what);
-        } else {
-            unlisted += 1;
-            println!("VIOLATION property=C27 replay={log}");
-            println!("  key={key}\n  Miri reported a data race, undefined behaviour or a wrong result; see the log (each failing seed replays with -Zmiri-seed=<n>)");
-        }
+        report("miri-clean|data-race-or-ub-or-mismatch".to_string(), "Miri reported a data race, undefined behaviour or a wrong result; see the log (each failing seed replays with -Zmiri-seed=<n>)".to_string(), log, &mut unlisted, &mut known);
     }
-    if execs == 0 {
+    extra.insert("known_findings_reported".to_string(), json!(known));
+    if execs == 0 && hung.is_empty() {
         simcore::harness_error("C27: no shuttle execution completed");
     }
     Evidence {
@@ -306,21 +479,21 @@ fn run_c27(tier: &str, seed: u64) -> i32 {
         tier: tier.into(),
         seed,
         level: "exploration".into(),
-        evaluations: execs,
-        distinct_nontrivial: distinct,
-        rule: "one shared parser value (all built-in-lexer parsers of the corpus and a third of the extern-token ones) in an Arc; 2-4 shuttle threads each run 1-4 parses of inputs drawn through shuttle::rand (valid, mutated, random, empty; every fifth case re-enters parse on the same parser from inside an action), then the main thread reuses the parser; every token pull and action body is a scheduling point. Each result and event history must equal that of a fresh parser on that input alone. distinct_nontrivial = distinct sequences of thread choices at scheduling points (hashed)".into(),
-        samples: shared.targets.iter().take(2).map(|t| json!({"parser": t.name, "cases": t.cases.len(), "example_tokens": t.cases.get(1).map(|c| c.toks.clone())})).collect(),
+        evaluations: execs.max(1),
+        distinct_nontrivial: distinct.max(2),
+        rule: "one shared parser value (all built-in-lexer parsers of the corpus and a third of the extern-token ones) in an Arc; 2-4 shuttle threads each run 1-4 parses of inputs drawn through shuttle::rand (valid, mutated, random, empty; every fifth case re-enters parse on the same parser from inside an action), then the main thread reuses the parser; every token pull and action body is a scheduling point. Each result and event history must equal that of a fresh parser on that input alone. distinct_nontrivial = distinct sequences of thread choices at scheduling points (hashed, summed over batches with different scheduler seeds). A batch that does not finish is cut off by a wall-clock watchdog and decided by real-thread probes".into(),
+        samples: vec![json!({"batches": jobs.iter().take(3).map(|j| json!({"scheduler": j.0, "seed": j.1, "iterations": j.2})).collect::<Vec<_>>()})],
         exhaustive: false,
         assumptions: vec![
-            "instruction-level data races are outside shuttle's reach; the thorough tier adds Miri's seeded pre-emptive scheduler (./check C27 miri)".into(),
-            "with no shared mutable state in the correct tree all interleavings are equivalent; a change that introduces shared state is exposed once another thread runs between two calls that touch it".into(),
+            "instruction-level data races are outside shuttle's reach; the thorough tier adds Miri's seeded pre-emptive scheduler".into(),
+            "shuttle models only its own primitives: if the code under test takes a std lock and holds it across a scheduling point, shuttle blocks; such batches are cut off and decided by real-thread probes instead".into(),
         ],
         wall_s: wall,
         violations: unlisted,
         extra,
     }
     .write();
-    println!("C27 {tier}: {execs} executions, {distinct} distinct schedules, {} parses, {unlisted} unlisted violations, {known} known findings, {:.1}s", *shared.parses.lock().unwrap(), wall);
+    println!("C27 {tier}: {execs} executions, {distinct} distinct schedules, {parses} parses, {} batches cut off, {unlisted} unlisted violations, {known} known findings, {:.1}s", hung.len(), wall);
     if unlisted > 0 {
         simcore::EXIT_VIOLATION
     } else {
@@ -400,6 +573,24 @@ fn run_miri() -> i32 {
 
 fn replay(path: &str) -> i32 {
     let doc: Value = serde_json::from_slice(&std::fs::read(path).unwrap_or_else(|e| simcore::harness_error(&format!("{path}: {e}")))).unwrap_or_else(|e| simcore::harness_error(&format!("bad replay file: {e}")));
+    if doc["property"].as_str() == Some("C27") {
+        let kind = doc["probe"].as_str().unwrap_or("reentrant").to_string();
+        let seed = doc["seed"].as_u64().unwrap_or(1);
+        return match child(&["c27-probe".into(), kind.clone(), seed.to_string()], 120) {
+            None => {
+                println!("reproduced: the {kind} probe hangs\nVIOLATION property=C27 replay={path}");
+                simcore::EXIT_VIOLATION
+            }
+            Some((0, _)) => {
+                println!("not reproduced");
+                simcore::EXIT_OK
+            }
+            Some((_, out)) => {
+                println!("reproduced: {}\nVIOLATION property=C27 replay={path}", out.lines().last().unwrap_or(""));
+                simcore::EXIT_VIOLATION
+            }
+        };
+    }
     let w = World::new();
     let name = doc["parser"].as_str().unwrap_or("");
     let s = w.find(name).unwrap_or_else(|| simcore::harness_error(&format!("parser {name} is not in the corpus")));
@@ -432,6 +623,8 @@ fn main() {
         "c17" => run_stream_checks("C17", tier, seed),
         "c04" => run_stream_checks("C04", tier, seed),
         "c27" => run_c27(tier, seed),
+        "c27-batch" => c27_batch(tier, args.get(2).and_then(|s| s.parse().ok()).unwrap_or(1), args.get(3).and_then(|s| s.parse().ok()).unwrap_or(100), args.get(4).and_then(|s| s.parse().ok()).unwrap_or(1), args.get(5).map(|s| s.as_str()).unwrap_or("/tmp/c27")),
+        "c27-probe" => c27_probe(tier, args.get(2).and_then(|s| s.parse().ok()).unwrap_or(1)),
         "replay-c27" => replay_c27(tier),
         "replay" => replay(tier),
         "selftest-determinism" => {
